@@ -34,6 +34,8 @@ def instances(tier, seed):
         for pos in ('end', 'pipe', 'semi', 'and'):
             if pos != 'end' and total > b['pos_chars']: continue
             out.append(dict(name='%s/%s/%s' % (styles or '-', ','.join(map(str, lens)) or '-', pos), styles=styles, lens=lens, pos=pos))
+    for i in out:
+        if sum(i['lens']) >= 2: i['_split'] = 5
     out.sort(key=lambda i: -sum(i['lens']))
     return out
 
@@ -209,7 +211,8 @@ def run_instance(prog, inst, tier, seed, deadline):
             args = args_of(l.inputs)
             return dict(label='crash', line=h_c01.render(inst['styles'], args, inst['pos']), args=args, styles=inst['styles'], pos=inst['pos'],
                         key='crash:' + str(l.msg)[:40], min_args=args)
-        res = hsupport.run_paths(prog, body(inst), deadline, on_ok=on_ok, on_violation=on_violation, on_panic=on_panic, step_budget=600_000)
+        res = hsupport.run_paths(prog, body(inst), deadline, on_ok=on_ok, on_violation=on_violation, on_panic=on_panic, step_budget=600_000,
+                                 prefix=inst.get('_prefix'), split_depth=inst.get('_split'))
         flat = []
         for v in res['violations']:
             more = v.pop('more', []); flat.append(v); flat.extend(more)
